@@ -1281,17 +1281,27 @@ class Stack(list):
 
         :return bool:
         """
-        # TODO: Implement
-        # if sequence == 0xffffffff:
-        #     return False
-        # locktime = decode_num(self[-1])
-        # if locktime < 0:
-        #     return False
-        # if locktime != 0xffffffff:
-        #     if version < 2:
-        #         return False
-        # return True
-        return NotImplementedError
+        if sequence is None or version is None:
+            return False
+        if len(self[-1]) > 5:
+            return False
+        locktime = decode_num(self[-1])
+        if locktime < 0:
+            return False
+        if locktime & (1 << 31):
+            # Disable flag set in script value: behaves as a NOP
+            return True
+        if version < 2:
+            return False
+        if sequence & (1 << 31):
+            return False
+        type_flag = 1 << 22
+        mask = type_flag | 0x0000ffff
+        if (locktime & mask < type_flag) != (sequence & mask < type_flag):
+            return False
+        if locktime & mask > sequence & mask:
+            return False
+        return True
 
     def op_nop4(self):
         return True
